@@ -20,3 +20,4 @@ double __builtin_powi(double x, int n) { return __CPROVER_uninterpreted_powi(x, 
 double __powidf2(double x, int n) { return __CPROVER_uninterpreted_powi(x, n); }
 double __CPROVER_uninterpreted_fma(double, double, double);
 double fma(double x, double y, double z) { return __CPROVER_uninterpreted_fma(x, y, z); }
+
